@@ -2,10 +2,13 @@ mod chain;
 mod conc;
 mod config;
 mod crypto;
+mod live;
 mod monitors;
+mod outage;
 mod report;
 mod rng;
 mod simnode;
+mod simsource;
 mod sync;
 mod slots;
 mod tower;
@@ -51,6 +54,10 @@ fn main() {
         "conc" => {
             conc::run(seed, thorough, &mut rep);
             rep.finish("schedule exploration of the real tower under the deterministic scheduler (hook H5): for each scenario (set-up + 2..3 concurrent operations) every schedule with at most 1 (quick) / 2 (thorough) pre-emptions at lock acquisitions; outcome compared with the outcomes of the sequential orders; circular waits, aborts, lock-order edges recorded. SEARCH, not proof.", false);
+        }
+        "outage" => {
+            outage::run(seed, thorough, &mut rep);
+            rep.finish("scripted bitcoind outages (whole node / RPC interface at the i-th call) on the request path and on the block-processing path, with and without blocks mined meanwhile, under the deterministic scheduler; the observable state after every act is compared with the model; 'blocked forever' is decided structurally", false);
         }
         "slots" => {
             slots::run(seed, thorough, &mut rep);
